@@ -336,4 +336,43 @@ inline std::unique_ptr<Scene> build(const Scenario& sc) {
     return S;
 }
 
+// ---------------------------------------------------------------- non-smooth points of the potential energy
+// Largest |t| for which q + t*qdot (qdot belonging to the speeds of state w, realized to Velocity) provably stays on the
+// same side of every onset of the element's energy (contact onset of each probe / brick vertex / mesh spring, the
+// exponential spring's clamp at the maximum normal force): 0.04 * (smallest distance to an onset) / (bound on the relative
+// speed of the surfaces).  Used by C12 to keep finite-difference stencils away from non-smooth points.
+inline Real maxSmoothStep(const Scenario& sc, const Scene& S, const State& w) {
+    const MobilizedBody& mA = S.m->mb[sc.A]; const MobilizedBody& mB = S.m->mb[sc.B];
+    BodyKin kA = kinOf(mA, w), kB = kinOf(mB, w);
+    Real margin = Infinity, rate = 0;
+    auto bodyRate = [](const BodyKin& k, const Vec3& P, Real size) { return k.V[1].norm() + k.V[0].norm() * ((P - k.X.p()).norm() + size); };
+    if (sc.kind == ExpSpring) {
+        Vec3 pG = kB.X * sc.station, vG = pointVel(kB, pG); Vec3 pP = ~S.X_GP * pG, vP = ~S.X_GP.R() * vG;
+        Real fz = sc.d1 * std::exp(-sc.d2 * (pP[2] - sc.d0)) * (1 - sc.cz * vP[2]);
+        if (fz > 0) margin = std::fabs(std::log(sc.maxFz / fz)) / sc.d2;
+        rate = vG.norm();
+        return rate > 0 ? 0.04 * margin / rate : Infinity;
+    }
+    Transform X1 = kA.X * sc.s1.X_BS, X2 = kB.X * S.X_BS2;
+    auto sphereDepth = [&](const Vec3& c, Real R) { return sc.s1.shape == ShHalfSpace ? R + ~(c - X1.p()) * (X1.R() * Vec3(1, 0, 0)) : sc.s1.R + R - (c - X1.p()).norm(); };
+    Real size = 0;
+    if (sc.s1.shape == ShMesh || sc.s2.shape == ShMesh) {
+        const Transform& XM = sc.meshOnBase ? X1 : X2; const Transform& XO = sc.meshOnBase ? X2 : X1; const Surf& os = sc.meshOnBase ? sc.s2 : sc.s1;
+        for (int f = 0; f < sc.mesh.nFaces(); ++f) { Vec3 cg = XM * sc.mesh.centroid(f);
+            Real inside = os.shape == ShSphere ? os.R - (cg - XO.p()).norm() : ~(cg - XO.p()) * (XO.R() * Vec3(1, 0, 0)); margin = std::min(margin, std::fabs(inside)); }
+        size = std::max(sc.s2.dims[0], std::max(sc.s2.dims[1], sc.s2.dims[2])) + sc.s2.R + sc.s1.R;
+    } else if (sc.s2.shape == ShBrick) {
+        Vec3 xin = X1.R() * Vec3(1, 0, 0);
+        for (int i = 0; i < 8; ++i) { Vec3 v((i & 1 ? 1 : -1) * sc.s2.dims[0], (i & 2 ? 1 : -1) * sc.s2.dims[1], (i & 4 ? 1 : -1) * sc.s2.dims[2]); margin = std::min(margin, std::fabs(~(X2 * v - X1.p()) * xin)); }
+        size = sc.s2.dims.norm();
+    } else if (sc.s2.shape == ShEllipsoid) {
+        Vec3 xin = X1.R() * Vec3(1, 0, 0), dS = ~X2.R() * xin; Real h = support(sc.s2, nullptr, dS); margin = std::fabs(h + ~(X2.p() - X1.p()) * xin); size = std::max(sc.s2.dims[0], std::max(sc.s2.dims[1], sc.s2.dims[2]));
+    } else { margin = std::fabs(sphereDepth(X2.p(), sc.s2.R)); size = sc.s2.R; }
+    rate = bodyRate(kA, X2.p(), size) + bodyRate(kB, X2.p(), size);
+    Real t = rate > 0 ? 0.04 * margin / rate : Infinity;
+    if (sc.D >= 0) { BodyKin kD = kinOf(S.m->mb[sc.D], w); Transform X3 = kD.X * S.X_DS3; Real m3 = std::fabs(sphereDepth(X3.p(), sc.s3.R)), r3 = bodyRate(kA, X3.p(), sc.s3.R) + bodyRate(kD, X3.p(), sc.s3.R);
+        if (r3 > 0) t = std::min(t, 0.04 * m3 / r3); }
+    return t;
+}
+
 } // namespace cgen
